@@ -4,11 +4,16 @@
    (text level: print_json / parse_json) and Proofs/SnapshotProofs.v (packages).
    Hypotheses [wf_*] / [jwf_order] say that every field is in the range of its Rust
    type (u64 / i64 / u32 / 128-bit ids); they hold of every value the Rust types can
-   hold, in particular of integers above 2^53 and of u64::MAX. *)
+   hold, in particular of integers above 2^53 and of u64::MAX.
+   The id texts inside JSON (OrderId, Uuid) are read with the FULL text model of
+   Model/Ids.v / Model/Text.v — the one C16 / C18 are about — so the decoders accept
+   every spelling Uuid::from_str / Ulid::from_string accept, not only the canonical
+   ones the printers emit (section "id texts" below). *)
 From Coq Require Import Ascii.
 From Coq Require String.
 Import String.StringSyntax.
 From PL Require Import Model.Snapshot Proofs.JsonProofs Proofs.JsonTextProofs Proofs.SnapshotProofs.
+From PL Require Model.Ids Model.Text.
 Local Open Scope N_scope.
 
 (* ---- serde value level: of_json (to_json v) = Some v, for every serde type ---- *)
@@ -155,6 +160,65 @@ Theorem C17_decoded_in_range :
   (forall j p, of_json_package j = Some p -> wf_package p).
 Proof. exact (conj of_json_order_wf (conj of_json_snapshot_wf of_json_package_wf)). Qed.
 
+(* ---- id texts: the JSON decoders read ids with the text model of Ids.v / Text.v ---- *)
+
+(* an OrderId inside JSON is accepted exactly when OrderId::from_str (Text.parse_oid)
+   accepts the string, with the same value ... *)
+Theorem C17_order_id_is_text_format :
+  forall s k, of_json_oid (JStr s) = Some k <-> Text.parse_oid s = Text.POk k.
+Proof. exact parse_oid_Some. Qed.
+
+(* ... and refused exactly when it returns Err: the third outcome of the text model,
+   a panic, is mapped to "refused" by [opt_of_outcome] but never occurs *)
+Theorem C17_order_id_error_is_text_error :
+  forall s, of_json_oid (JStr s) = None <-> Text.parse_oid s = Text.PErr.
+Proof. exact parse_oid_None. Qed.
+
+Theorem C17_order_id_never_panics : forall s, Text.parse_oid s <> Text.PPanic.
+Proof. exact parse_oid_no_panic. Qed.
+
+(* in particular for the strings of a JSON text produced by print_json *)
+Corollary C17_printed_id_never_panics :
+  forall j s, plain_json j = true -> parse_top (print_json j) = Some (JStr s) ->
+    Text.parse_oid s <> Text.PPanic.
+Proof. intros j s _ _. exact (parse_oid_no_panic s). Qed.
+
+(* a Uuid inside JSON (Transaction::transaction_id): Uuid::from_str *)
+Theorem C17_uuid_is_text_format : forall s, of_json_uuid (JStr s) = Ids.parse_uuid s.
+Proof. reflexivity. Qed.
+
+Theorem C17_decoded_ids_in_range :
+  (forall j k, of_json_oid j = Some k -> wf_oid k) /\
+  (forall j n, of_json_uuid j = Some n -> n < W128).
+Proof. exact (conj of_json_oid_wf of_json_uuid_wf). Qed.
+
+(* non-canonical spellings are accepted (upper / mixed case, simple, braced, urn; lower-case
+   ulid; a ulid whose first character exceeds '7' loses its two top bits: "F..." = "7...");
+   near misses and a ulid text in a Uuid field are not *)
+Example C17_example_id_spellings :
+  let u := Uuid 1512366075204170929049582354406559215 in
+  let z := Ulid 340282366920938463463374607431768211455 in
+  of_json_oid (JStr (lit "01234567-89ab-cdef-0123-456789abcdef")) = Some u /\
+  of_json_oid (JStr (lit "01234567-89AB-cdEF-0123-456789ABCDEF")) = Some u /\
+  of_json_oid (JStr (lit "0123456789ABCDEF0123456789abcdef")) = Some u /\
+  of_json_oid (JStr (lit "{01234567-89ab-cdef-0123-456789abcdef}")) = Some u /\
+  of_json_oid (JStr (lit "urn:uuid:01234567-89ab-cdef-0123-456789ABCDEF")) = Some u /\
+  of_json_uuid (JStr (lit "{01234567-89AB-cdef-0123-456789abcdef}")) = Some 1512366075204170929049582354406559215 /\
+  of_json_oid (JStr (lit "7ZZZZZZZZZZZZZZZZZZZZZZZZZ")) = Some z /\
+  of_json_oid (JStr (lit "7zzzzzzzzzZZZZZZzzzzzzzzzz")) = Some z /\
+  of_json_oid (JStr (lit "FZZZZZZZZZZZZZZZZZZZZZZZZZ")) = Some z /\
+  of_json_oid (JStr (lit "zzzzzzzzzzzzzzzzzzzzzzzzzz")) = Some z /\
+  of_json_oid (JStr (lit "URN:UUID:01234567-89ab-cdef-0123-456789abcdef")) = None /\
+  of_json_oid (JStr (lit "01234567-89ab-cdef-0123-456789abcde")) = None /\
+  of_json_oid (JStr (lit "0123456-789ab-cdef-0123-456789abcdef")) = None /\
+  of_json_oid (JStr (lit "01234567-89ab-cdef-0123-456789abcdeg")) = None /\
+  of_json_oid (JStr (lit "{0123456789abcdef0123456789abcdef}")) = None /\
+  of_json_oid (JStr (lit "7ZZZZZZZZZZZZZZZZZZZZZZZZI")) = None /\
+  of_json_oid (JStr (lit "7ZZZZZZZZZZZZZZZZZZZZZZZZ")) = None /\
+  of_json_uuid (JStr (lit "7ZZZZZZZZZZZZZZZZZZZZZZZZZ")) = None /\
+  of_json_oid (JNum 7) = None.
+Proof. vm_compute. repeat split; reflexivity. Qed.
+
 (* ---- non-vacuity: boundary values meet the hypotheses and make the trip ---- *)
 
 Definition ex_c : common :=
@@ -208,6 +272,8 @@ Check C17_order : forall o, jwf_order o -> of_json_order (to_json_order o) = Som
 Check C17_snapshot : forall s, wf_snapshot s -> of_json_snapshot (to_json_snapshot s) = Some s.
 Check C17_package : forall p, wf_package p -> of_json_package (to_json_package p) = Some p.
 Check C17_parse_top_print : forall j, plain_json j = true -> parse_top (print_json j) = Some j.
+Check C17_order_id_is_text_format :
+  forall s k, of_json_oid (JStr s) = Some k <-> Text.parse_oid s = Text.POk k.
 Check C17_package_new_text_validates_hex :
   forall (H : list ascii -> list ascii) s, wf_snapshot (refresh s) ->
     option_map (validate H hex_lower)
@@ -241,3 +307,9 @@ Print Assumptions C17_package_new_validates.
 Print Assumptions C17_package_new_text_validates.
 Print Assumptions C17_package_new_text_validates_hex.
 Print Assumptions C17_decoded_in_range.
+Print Assumptions C17_order_id_is_text_format.
+Print Assumptions C17_order_id_error_is_text_error.
+Print Assumptions C17_order_id_never_panics.
+Print Assumptions C17_printed_id_never_panics.
+Print Assumptions C17_uuid_is_text_format.
+Print Assumptions C17_decoded_ids_in_range.
